@@ -3,12 +3,14 @@ CONSTANTS
   Dims = {1}
   Addrs = {1, 2}
   KeyHoldsRef = TRUE
+  FullBoots = TRUE
 SPECIFICATION SpecStats
 CHECK_DEADLOCK FALSE
 INVARIANT L_InfoSym
 INVARIANT L_ScoreInfo
 INVARIANT L_ThetaScoreZero
 INVARIANT L_FitScoreZero
+INVARIANT L_PosParts
 INVARIANT L_Inverse
 INVARIANT L_Sandwich
 INVARIANT L_PermInvariant
